@@ -1578,6 +1578,15 @@ def run(ck):
         'exhaustive': False,
         'sanitizers': 'ASan+UBSan (vptr check off: CRTP static_cast in FlatConverter ctor fires on every run), per-run timeout %ds' % TIMEOUT,
     })
+    try:
+        cj = json.load(open(os.path.join(VERIF, 'design_notes', 'coverage', 'C09.json')))
+        ck.cov['anchor_line_cov'] = cj['anchor_line_cov']
+        ck.cov['anchor_branch_cov'] = cj['anchor_branch_cov']
+        ck.cov['anchor_coverage_note'] = ('gcov line/branch coverage of the anchored files by the quick-tier stream, measured in the last VERIF_COVERAGE=1 run '
+                                          '(mechanism functions: line %.1f%%, branch %.1f%%); see design_notes/coverage/C09.md' %
+                                          (cj['mechanism_line_cov'], cj['mechanism_branch_cov']))
+    except Exception:
+        pass
     ck.log('outcomes: %s' % json.dumps(hist['outcome'], sort_keys=True))
     ck.log('endings: %s' % json.dumps(hist['ending'], sort_keys=True))
     ck.log('model arms taken: %d/%d; never: %s' % (sum(1 for a_ in ALL_ARMS if arms.get(a_)), len(ALL_ARMS), [a_ for a_ in ALL_ARMS if not arms.get(a_)]))
